@@ -21,7 +21,7 @@ ASSUMPTIONS = [
     "the parallel hashing path is reached by construction (two files larger than the threshold in one directory); its use is inferred from the inputs, not from an internal hook",
 ]
 MONITORS = "oid / bytes equality across permutations and configurations; independent canonical encoder; collision map"
-REQUIRED_COUNTERS = ["digests_asked_to_keep_metadata", "other_hash_name_listings_through_the_store", "legacy_algorithm_builds_with_large_text_files", "digested_object_reread_after_other_digests", "late_materialisations", "flaky_read_builds", "inode_only_swaps", "get_obj_after_add_histories", "state_warmed_under_other_algorithm", "permutations_checked", "sets_exhaustively_permuted", "disk_builds", "parallel_path_builds", "shuffled_walk_builds",
+REQUIRED_COUNTERS = ["digests_after_replacing_an_entry", "digests_asked_to_keep_metadata", "other_hash_name_listings_through_the_store", "legacy_algorithm_builds_with_large_text_files", "digested_object_reread_after_other_digests", "late_materialisations", "flaky_read_builds", "inode_only_swaps", "get_obj_after_add_histories", "state_warmed_under_other_algorithm", "permutations_checked", "sets_exhaustively_permuted", "disk_builds", "parallel_path_builds", "shuffled_walk_builds",
                      "warm_state_builds", "prefix_objects_checked", "roundtrip_checks", "get_hashes_threshold_checks"]
 
 
@@ -239,6 +239,26 @@ def run_shard(ctx):
                 t.digest()
                 if t.oid != canonical_dir_oid({"/".join(kk): v for kk, v in items2.items()}):
                     res.violation("digest-stale-after-add", "digest() after further add() calls is not the canonical id of the current entries", case=case)
+                elif items2:
+                    # ... and once more after an entry was merely replaced (as many entries as before)
+                    kr = rng.choice(sorted(items2))
+                    items2[kr] = "%032x" % rng.getrandbits(128)
+                    t.add(kr, rmeta(rng), HashInfo("md5", items2[kr]))
+                    t.digest()
+                    res.count("digests_after_replacing_an_entry")
+                    if t.oid != canonical_dir_oid({"/".join(kk): v for kk, v in items2.items()}):
+                        res.violation("digest-stale-after-add/entry-replaced", "digest() after an entry was replaced (same number of entries) is not the canonical id of the current entries", case=case)
+                    elif H("md5", t.fs.cat_file(t.path)) + ".dir" != t.oid:
+                        res.violation("digest-stale-after-add/stored-form-differs", "the bytes digest() left to be stored do not hash to the identifier it reports", case=case)
+                    else:
+                        # other trees are digested before this one gets stored: what it left to be stored is still its own listing
+                        for j_ in range(rng.randrange(4, 7)):
+                            o_ = Tree()
+                            o_.add((f"other{j_}",), rmeta(rng), HashInfo("md5", "%032x" % rng.getrandbits(128)))
+                            o_.digest()
+                        res.count("stored_forms_read_after_other_digests")
+                        if H("md5", t.fs.cat_file(t.path)) + ".dir" != t.oid:
+                            res.violation("stored-form-overwritten-by-later-digests", "after other trees were digested, the bytes this tree left to be stored no longer hash to its identifier", case=case)
             for key, dg in sorted(items2.items())[:2]:
                 obj = t.get_obj(dummy, key)
                 if obj is None or obj.oid != dg:
